@@ -198,3 +198,27 @@ def scalars_of_graph(n, acc=None, seen=None):
             scalars_of_graph(k, acc, seen)
             scalars_of_graph(v, acc, seen)
     return acc
+
+
+def graph_term(root):
+    """Coq (graph, root) for a composed node graph with sharing/cycles: cells indexed by first visit."""
+    index, cells = {}, []
+
+    def visit(n):
+        if id(n) in index:
+            return index[id(n)]
+        i = len(cells)
+        index[id(n)] = i
+        cells.append(None)
+        mk = 'nomark'
+        if isinstance(n, yaml.ScalarNode):
+            cells[i] = f'(CScalar {coq_ustr(n.tag)} {coq_ustr(n.value)} {mk})'
+        elif isinstance(n, yaml.SequenceNode):
+            items = [visit(x) for x in n.value]
+            cells[i] = f'(CSeq {coq_ustr(n.tag)} [' + '; '.join(f'{x}%nat' for x in items) + f'] {mk})'
+        else:
+            ps = [(visit(k), visit(v)) for k, v in n.value]
+            cells[i] = f'(CMap {coq_ustr(n.tag)} [' + '; '.join(f'({a}%nat, {b}%nat)' for a, b in ps) + f'] {mk})'
+        return i
+    r = visit(root)
+    return '[' + '; '.join(cells) + ']', r
